@@ -323,3 +323,60 @@ def lazy_arff(sym, fmt, third):
             sym.check(bool(row.missing) == any(t == '?' for t in cs), f"row.missing flag for {cs}")
         accs = [acc_pos, acc_name, acc_iter, acc_eq, acc_missing]
         for f in (accs if ri == 0 else reversed(accs)): f()
+
+# ---------------------------------------------------------------------------------------------------
+from coba.pipes.rows import EncodeCatRows
+from coba.primitives import Categorical
+import copy as _copy
+_LV = ['u','v','w']
+
+def _ref_cat(v, tipe):
+    """eager reference of EncodeCatRows on plain lists/dicts"""
+    if isinstance(v, Categorical):
+        if tipe == 'string': return str(v)
+        return tuple(1 if l == str(v) else 0 for l in v.levels)          # the one-hot vector
+    if isinstance(v, (list,tuple)):
+        out = []
+        for x in v:
+            if isinstance(x, Categorical) and tipe == 'onehot': out.extend(_ref_cat(x, 'onehot_tuple'))
+            else: out.append(_ref_cat(x, tipe))
+        return out
+    if isinstance(v, dict):
+        out = {}
+        for k,x in v.items():
+            if isinstance(x, Categorical) and tipe == 'onehot':
+                for i,b in enumerate(_ref_cat(x, 'onehot_tuple')):
+                    if b: out[f'{k}_{i}'] = b
+            else: out[k] = _ref_cat(x, tipe)
+        return out
+    return v
+
+def _plain(v):
+    if isinstance(v, Categorical): return ('cat', str(v), tuple(v.levels))
+    if isinstance(v, (list,tuple)): return [_plain(x) for x in v]
+    if isinstance(v, dict) or hasattr(v,'items'): return {k:_plain(x) for k,x in dict(v.items()).items()}
+    return v
+
+@obligation('C13','cat_rows', bounds="EncodeCatRows('onehot'|'onehot_tuple'|'string'|None) over 2 rows; dense rows [cat, int, [cat, int]] / [int, cat] (values, tuples and lists), sparse rows {'a':cat,'bb':int,'ns':{'c':cat}} / {'key':cat}; every categorical's level (3 levels) solver-enumerated; two encodings applied one after the other to the SAME source rows (which must stay untouched); results compared with an eager encoding of plain lists and dicts",
+            functions=['coba.pipes.rows:EncodeCatRows.filter','coba.pipes.rows:EncodeCatRows._encode_collection','coba.pipes.rows:EncodeCatRows._encode_values'],
+            params=lambda tier: [dict(shape=s, t1=a, t2=b) for s in ('dense_nested','dense_flat','dense_tuple','sparse_nested','sparse_flat','values') for a in ('onehot','onehot_tuple','string') for b in ('string','onehot',None)])
+def cat_rows(sym, shape, t1, t2):
+    cat = lambda name: Categorical(sym.choice(name, _LV), _LV)
+    rows = []
+    for r in range(2):
+        if shape == 'dense_nested':  rows.append([cat(f'c{r}a'), 5+r, [cat(f'c{r}b'), 7]])
+        elif shape == 'dense_flat':  rows.append([3+r, cat(f'c{r}a')])
+        elif shape == 'dense_tuple': rows.append((cat(f'c{r}a'), 3+r, cat(f'c{r}b')))
+        elif shape == 'sparse_nested': rows.append({'a': cat(f'c{r}a'), 'bb': 5+r, 'ns': {'c': cat(f'c{r}b')}})
+        elif shape == 'sparse_flat': rows.append({'key': cat(f'c{r}a'), 'z': r})
+        else: rows.append(cat(f'c{r}a'))
+    snap = [_plain(r) for r in rows]
+    for step,tipe in enumerate((t1, t2)):
+        got = list(EncodeCatRows(tipe).filter(rows if sym.flag(f'list{step}') else iter(rows)))
+        sym.check(len(got) == 2, f"EncodeCatRows({tipe!r}): {len(got)} rows for 2")
+        for r,(g,src) in enumerate(zip(got, rows)):
+            if tipe is None: exp = _plain(src)
+            elif isinstance(src, Categorical): exp = _plain(_ref_cat(src, tipe))
+            else: exp = _plain(_ref_cat(src, tipe))
+            sym.check(_plain(g) == (list(exp) if isinstance(exp, tuple) else exp) or _plain(g) == exp, f"EncodeCatRows({tipe!r}) step {step} row {r} ({shape}): got {_plain(g)!r}, the eager encoding of {snap[r]!r} is {exp!r}")
+        sym.check([_plain(r) for r in rows] == snap, f"EncodeCatRows({tipe!r}) changed the rows it was given ({shape}): {[_plain(r) for r in rows]!r} were {snap!r}")
